@@ -704,6 +704,19 @@ Next:
     }
   }
 
+  // Validate Mask Register Pair
+  // ---------------------------
+
+  // vp2intersectd|q write two consecutive mask registers, the first one must be even.
+  if (inst_info._encoding == InstDB::kEncodingVexRvm_Lx_2xK && op_count >= 2 && operands[0].is_reg() && operands[1].is_reg()) {
+    uint32_t k0 = operands[0].id();
+    uint32_t k1 = operands[1].id();
+
+    if (ASMJIT_UNLIKELY(k0 < Operand::kVirtIdMin && k1 < Operand::kVirtIdMin && ((k0 & 1u) != 0u || k0 + 1u != k1))) {
+      return make_error(Error::kInvalidPhysId);
+    }
+  }
+
   // Validate EVEX-only Resources
   // ----------------------------
 
